@@ -18,6 +18,10 @@ COMMON = [
 
 GO = "/opt/veriftools/go1.26.8/bin/go"
 
+# per-package opt-in selector rewrites: no process is spawned by internal/externalcmd under the scheduler
+DEFAULT_EXTRA = ("github.com/bluenviron/mediamtx/internal/externalcmd:"
+                 "os/exec.Command=XCommand,os/exec.Cmd=XCmd,syscall.Kill=XKill")
+
 
 def add_dir(rep, src, dst):
     for name in sorted(os.listdir(src)):
@@ -89,6 +93,9 @@ def prepare(rep, spec, REPO, VERIF, BUILD, ENV, die):
     ov_in = os.path.join(outdir, "in.json")
     json.dump({"Replace": rep}, open(ov_in, "w"))
     cmd = [gi, "-dir", REPO, "-overlay", ov_in, "-out", outdir, "-modfile", modfile]
+    extra = spec.get("instr_extra", DEFAULT_EXTRA)
+    if extra:
+        cmd += ["-extra", extra]
     if spec.get("instr_notime"):
         cmd += ["-notime", ",".join(spec["instr_notime"])]
     cmd += pkgs
